@@ -205,7 +205,7 @@ vharness! {
 }
 
 vharness! {
-    /// @prop C09,C10 @tier quick @mode fast @cost 3 @funcs Channel::send @bounds as channel_send_empty_t1 with one message already queued, sender = thread 0
+    /// @prop C09,C10 @tier thorough @mode fast @cost 3 @funcs Channel::send @bounds as channel_send_empty_t1 with one message already queued, sender = thread 0
     /// send on a non-empty channel appends behind the queued message; the stamp accumulates earlier sends (FIFO hand-over order).
     #[cfg_attr(kani, kani::unwind(8))]
     fn channel_send_nonempty_t0() { send_case(0, 1) }
@@ -266,7 +266,7 @@ vharness! {
 }
 
 vharness! {
-    /// @prop C09,C05 @tier quick @mode fast @cost 2 @funcs Channel::is_empty,Ref::branch_disable,rt::branch,Execution::schedule @bounds 3 threads, empty channel, receiver = thread 1, thread 0 runnable
+    /// @prop C09,C05 @tier thorough @mode fast @cost 2 @funcs Channel::is_empty,Ref::branch_disable,rt::branch,Execution::schedule @bounds 3 threads, empty channel, receiver = thread 1, thread 0 runnable
     /// recv on an empty channel blocks: the caller becomes Blocked with a pending recv on the channel and loom asks for a context switch (first half of the real recv through the real branch_disable/schedule).
     #[cfg_attr(kani, kani::unwind(8))]
     fn channel_recv_blocks_t1() {
